@@ -369,10 +369,20 @@ func (fr *Frame) binop(in *ssa.BinOp) Val {
 			} else {
 				cs = append(cs, eq(x.L[0], y.L[0]), eq(x.L[1], y.L[1]))
 			}
-		default:
-			if _, isI := in.Y.Type().Underlying().(*types.Interface); isI != false {
-				// mixed comparison concrete vs interface does not occur in SSA (MakeInterface inserted)
+		case *types.Array:
+			at := xt.(*types.Array)
+			if at.Len() <= 32 {
+				for i := range x.L {
+					for k := int64(0); k < at.Len(); k++ {
+						cs = append(cs, eq(fmt.Sprintf("(select %s %d)", x.L[i], k), fmt.Sprintf("(select %s %d)", y.L[i], k)))
+					}
+				}
+			} else {
+				for i := range x.L {
+					cs = append(cs, eq(x.L[i], y.L[i]))
+				}
 			}
+		default:
 			for i := range x.L {
 				if i < len(y.L) {
 					cs = append(cs, eq(x.L[i], y.L[i]))
